@@ -141,6 +141,8 @@ func (s *Set) getSiblingTemplate(templatePath, siblingPath string, cacheAfterPar
 	if !path.IsAbs(templatePath) {
 		siblingDir := path.Dir(siblingPath)
 		templatePath = path.Join(siblingDir, templatePath)
+	} else {
+		templatePath = path.Clean(templatePath)
 	}
 	return s.getTemplate(templatePath, cacheAfterParsing)
 }
